@@ -78,6 +78,54 @@ def _lift(t, budget):
     return ("ite", c, _lift(a, budget), _lift(b, budget))
 
 
+def _boolish(t):
+    t = strip(t)
+    h = head(t)
+    if h == "cmp" or (h == "un" and t[1] == "not") or (is_const(t) and isinstance(t[2], bool)):
+        return True
+    if h in ("and", "or"):
+        return all(_boolish(x) for x in t[1])
+    if h == "call":
+        f = strip(t[1])
+        if head(f) == "glob" and f[1] in ("builtins.isinstance", "builtins.bool", "builtins.any", "builtins.all", "builtins.callable", "builtins.hasattr", "builtins.issubclass"):
+            return True
+        if head(f) == "attr" and f[2] in ("isdisjoint", "issubset", "issuperset", "startswith", "endswith", "isdigit", "isalpha"):
+            return True
+    return False
+
+
+def expand_bool_leaves(tree):
+    """A leaf ``a and b`` / ``a or b`` / ``not a`` (a value, not a branch condition) is the decision tree it abbreviates:
+    a and b == (b if a else a);  a or b == (a if a else b);  not a == (False if a else True)."""
+    if head(tree) == "ite":
+        return ("ite", tree[1], expand_bool_leaves(tree[2]), expand_bool_leaves(tree[3]))
+
+    def ex(t, pol=True):
+        t = strip(t)
+        h = head(t)
+        if h == "un" and t[1] == "not":
+            return ex(t[2], not pol)
+        if h in ("and", "or") and len(t[1]) >= 1:
+            a, rest = t[1][0], t[1][1:]
+            if not rest:
+                return ex(a, pol)
+            restt = (h, rest) if len(rest) > 1 else rest[0]
+            if not pol and not _boolish(t):
+                return ("ite", t, FALSE, TRUE)
+            if h == "and":
+                other = (FALSE if pol else TRUE) if _boolish(a) else a
+                return ("ite", a, ex(restt, pol), other)
+            other = (TRUE if pol else FALSE) if _boolish(a) else a
+            return ("ite", a, other, ex(restt, pol))
+        if pol:
+            return t
+        return ("ite", t, FALSE, TRUE)
+    t = strip(tree)
+    if head(t) in ("and", "or") or (head(t) == "un" and t[1] == "not" and head(strip(t[2])) in ("and", "or")):
+        return lift_ite(ex(t))
+    return tree
+
+
 def canon_params(summary, skip_self=False):
     """Positional canonical names so that a renamed parameter does not matter."""
     m = {}
@@ -141,7 +189,7 @@ class Equiv:
             t = rewrite(t, canon_repo_calls(self.run))
         for rw in self.rewrites:
             t = rewrite(t, rw)
-        t = path_refine(lift_ite(t))
+        t = path_refine(expand_bool_leaves(lift_ite(t)))
         # conditionals lifted out of loops may expose plain accumulations: canonicalise once more
         for rw in self.rewrites:
             t = rewrite(t, rw)
@@ -222,7 +270,7 @@ class Equiv:
                         out.add(("f", f[1]))
                     elif head(f) == "attr":
                         out.add(("m", f[2]))
-                elif x[0] in ("fold", "floop", "comp", "lam", "try", "fstr", "mut", "mutf"):
+                elif x[0] in ("fold", "floop", "bfold", "bfloop", "comp", "lam", "try", "fstr", "mut", "mutf"):
                     out.add(("shape", x[0] if x[0] not in ("mut", "mutf") else x[0] + ":" + str(x[1])))
             return out
         from .rf import _ELEMENTWISE, _BINFUNCS, _SUMS, _IDENTITY
@@ -366,6 +414,15 @@ def std_rewrites(ident=("numpy.asarray", "numpy.array", "pyrepseq.util.ensure_nu
 
 
 # --------------------------------------------------------------------------- loop-closed terms
+def _raw_loop(summary, lid):
+    loops = summary.loops
+    return loops.raw(lid) if hasattr(loops, "raw") else loops.get(lid)
+
+
+def _closed_breaks(summary, lp, seen):
+    return tuple((close_loops(summary, c, seen), tuple((n, close_loops(summary, v, seen)) for n, v in vals)) for c, vals in lp.breaks)
+
+
 def close_loops(summary, term, _seen=None):
     """Replace loop-id carrying terms by self-contained forms so that two summaries can be compared structurally:
       ('after', lid, name)        -> ('fold', kind, depth, iterable, init, step, extra)  with ('phi', lid, n) -> ('acc', depth, k)
@@ -375,13 +432,13 @@ def close_loops(summary, term, _seen=None):
     seen = _seen or set()
 
     def depth_of(lid):
-        lp = summary.loops.get(lid)
+        lp = _raw_loop(summary, lid)
         return len(lp.ctx.loops) if lp is not None else 0
 
     def rw(t):
         h = head(t)
         if h == "after":
-            lp = summary.loops.get(t[1])
+            lp = _raw_loop(summary, t[1])
             name = t[2]
             if lp is None or not isinstance(name, str) or (t[1], name) in seen:
                 return t
@@ -399,15 +456,20 @@ def close_loops(summary, term, _seen=None):
                         order.append(x[2])
             m = {("acc", d, n): ("acc", d, i) for i, n in enumerate(order)}
             extra = tuple((close_loops(summary, lp.init.get(n, ("undef", n)), seen2), subst(closed[n], m)) for n in order[1:])
+            if lp.breaks:
+                # a loop that can be left early is kept as an opaque 'bfold' (compared structurally only, never canonicalised)
+                return ("bfold", lp.kind, d, close_loops(summary, lp.iterable, seen2), close_loops(summary, init, seen2), subst(closed[name], m), extra, subst(_closed_breaks(summary, lp, seen2), m))
             return ("fold", lp.kind, d, close_loops(summary, lp.iterable, seen2), close_loops(summary, init, seen2), subst(closed[name], m), extra)
         if h == "phi":
             return ("acc", depth_of(t[1]), t[2]) if isinstance(t[2], str) else t
         if h == "iter":
             return ("elem", depth_of(t[1]), t[2])
         if h == "loopret":
-            lp = summary.loops.get(t[1])
+            lp = _raw_loop(summary, t[1])
             if lp is None:
                 return t
+            if lp.breaks:
+                return ("bfloop", lp.kind, depth_of(t[1]), close_loops(summary, lp.iterable, seen), t[2], t[3], _closed_breaks(summary, lp, seen))
             return ("floop", lp.kind, depth_of(t[1]), close_loops(summary, lp.iterable, seen), t[2], t[3])
         return t
     return rewrite(term, rw)
@@ -644,6 +706,10 @@ def small_rewrites(t):
                 # dict({k: v for k, v in pairs}) is handled below; dict(d) of a fresh dict comprehension is that comprehension
                 if head(x) == "comp" and x[1] == "dict":
                     return x
+        if head(f) == "attr" and f[2] == "isdisjoint" and len(t[2]) == 1 and not t[3]:
+            a = strip(t[2][0])
+            if head(a) == "call" and strip(a[1]) == ("glob", "builtins.set") and len(a[2]) == 1 and not a[3]:
+                return ("call", t[1], (a[2][0],), ())
         if head(f) == "attr" and not t[3]:
             # x.sum() == numpy.sum(x), x.mean() == numpy.mean(x)
             if f[2] in ("sum", "mean") and not t[2]:
@@ -724,6 +790,14 @@ def small_rewrites(t):
         parts = tuple(("cmp", "==", a, b) for a, b in zip(strip(t[2])[1], strip(t[3])[1]))
         e = parts[0] if len(parts) == 1 else ("and", parts)
         return e if t[1] == "==" else ("un", "not", e)
+    if h == "cmp" and t[1] in ("==", "!=", ">") and is_const(strip(t[3]), 0):
+        # len(A.intersection(B)) == 0  ==  A.isdisjoint(B)
+        x = strip(t[2])
+        if head(x) == "call" and strip(x[1]) == ("glob", "builtins.len") and len(x[2]) == 1:
+            y = strip(x[2][0])
+            if head(y) == "call" and head(strip(y[1])) == "attr" and strip(y[1])[2] == "intersection" and len(y[2]) == 1 and not y[3]:
+                d = small_rewrites(("call", ("attr", strip(y[1])[1], "isdisjoint"), (y[2][0],), ()))
+                return d if t[1] == "==" else ("un", "not", d)
     if h == "cmp" and t[1] in ("==", "is") and is_const(strip(t[3]), True) and head(strip(t[2])) in ("cmp", "and", "or", "un"):
         return t[2]
     if h == "cmp" and t[1] in ("==", "is") and is_const(strip(t[3]), False) and head(strip(t[2])) in ("cmp", "and", "or", "un"):
@@ -809,6 +883,11 @@ def canon_folds(t):
                     return ("bin", "+", init, c) if not any(y == init for y in walk(c)) else t
                 if c is not None:
                     return c
+        # total = 0; for x in xs: total = total + f(x)   ->  sum([f(x) for x in xs])
+        if is_const(init, 0) and head(step) == "bin" and step[1] == "+" and strip(step[2]) == acc and not any(y == acc for y in walk(step[3])):
+            c = to_comp("list", step[3], ())
+            if c is not None:
+                return ("call", ("glob", "builtins.sum"), (c,), ())
         # string accumulation  s = ''; s += piece   ->  ''.join([...])
         if is_const(init, ""):
             pieces = _str_pieces(step, acc)
